@@ -369,7 +369,7 @@ theorem tmpdir_small (v : List Byte) : ProtoSmall (osTmpdir v) v := by
 theorem cwd_big (v : List Byte) : ProtoBig (cwd v) v (stripSlash v) := by
   constructor
   · intro size h
-    unfold cwd
+    unfold cwd cwdR
     by_cases h0 : size = 0
     · simp [h0, EINVAL]
     · have h1 : ¬ v.length + 1 ≤ size := by omega
@@ -377,7 +377,7 @@ theorem cwd_big (v : List Byte) : ProtoBig (cwd v) v (stripSlash v) := by
   · intro size h
     have h0 : ¬ size = 0 := by omega
     have h1 : v.length + 1 ≤ size := by omega
-    simp only [cwd, h0, h1, if_true, if_false, stripSlash]
+    simp only [cwd, cwdR, h0, h1, if_true, if_false, stripSlash]
     by_cases hs : v.length > 1 ∧ v[v.length - 1]? = some slash
     · simp only [hs, and_self, decide_true, if_true]
       have hl : (v.take (v.length - 1)).length = v.length - 1 := by simp
@@ -396,7 +396,7 @@ theorem cwd_big (v : List Byte) : ProtoBig (cwd v) v (stripSlash v) := by
 theorem cwd_small (v : List Byte) (hc : CwdCanonical v) : ProtoSmall (cwd v) v := by
   obtain ⟨hstrip, hcap⟩ := hc
   constructor
-  · simp [cwd]
+  · simp [cwd, cwdR]
   · intro size h0 h
     have h0' : ¬ size = 0 := by omega
     have h1 : ¬ v.length + 1 ≤ size := by omega
@@ -404,7 +404,7 @@ theorem cwd_small (v : List Byte) (hc : CwdCanonical v) : ProtoSmall (cwd v) v :
       intro hs
       have : (stripSlash v).length = v.length - 1 := by simp [stripSlash, hs]
       rw [hstrip] at this; omega
-    simp [cwd, h0', h1, hcap, hs]
+    simp [cwd, cwdR, h0', h1, hcap, hs]
 
 theorem homedirPw_eq (v : List Byte) (size : Nat) :
     osHomedir none v size = checkCopy .lenGeSize .withNul v size := by
@@ -627,5 +627,30 @@ theorem pipe_unbound (old0 : Byte) (size : Nat) (h0 : 0 < size) :
     pipeGetname [] old0 size = ⟨0, if old0 ≠ 0 then [(0, 0)] else [], 0⟩ := by
   have h0' : ¬ size = 0 := by omega
   simp [pipeGetname, pipeCopy, h0', memcpyW]
+
+/-- uv_cwd with an arbitrary residue of the failed first getcwd: same answer; stores stay inside the buffer
+as long as libc's did -/
+theorem cwdR_answer (v : List Byte) (size : Nat) (residue : Writes) :
+    (cwdR v size residue).rc = (cwd v size).rc ∧ (cwdR v size residue).size = (cwd v size).size := by
+  unfold cwd cwdR
+  by_cases h0 : size = 0
+  · simp [h0]
+  · by_cases h1 : v.length + 1 ≤ size
+    · simp [h0, h1]
+    · by_cases h2 : v.length + 1 ≤ scratchCap <;> simp [h0, h1, h2]
+
+theorem cwdR_bounded (v : List Byte) (size : Nat) (residue : Writes) (h : Bounded residue size) :
+    Bounded (cwdR v size residue).writes size := by
+  by_cases hs : v.length + 1 ≤ size
+  · have e : cwdR v size residue = cwd v size := by
+      have h0 : ¬ size = 0 := by omega
+      simp [cwd, cwdR, h0, hs]
+    rw [e]
+    exact ((cwd_big v).ok size (by omega)).2.2.2.mono (by omega)
+  · unfold cwdR
+    by_cases h0 : size = 0
+    · simp only [h0, if_true]; exact bounded_nil _
+    · simp only [h0, hs, if_false]
+      split <;> exact h
 
 end UvModel.Getter
